@@ -437,10 +437,17 @@ class World:
             self.containers[cname] = {
                 'inst': inst, 'gen': gen, 'configures': 1, 'finished': None,
                 'had_running': False, 'failed': False,
-                'last_configure': self._by(cname)}
+                'last_configure': self._by(cname),
+                'key': self._uid_key(ent)}
         else:
             if rec['inst'] != inst or rec['gen'] != gen:
-                self.fail('C13:container-name-reused-across-generations',
+                # provenance: do the 77 bits gen_uniqueid keeps (13 bits of
+                # the ctime in us, inode, instance id) really coincide?
+                same = rec['inst'] == inst and rec['key'] is not None and \
+                    rec['key'] == self._uid_key(ent)
+                self.fail('C13:container-name-reused-across-generations:' +
+                          ('via-unique-id-truncation' if same
+                           else 'via-other'),
                           'configure of cache/%s generation %s produced '
                           'container %s, which is the container of '
                           'generation %s' % (inst, gen, cname, rec['gen']))
@@ -577,6 +584,16 @@ class World:
                 return 'tombstone-of-older-generation'
             return 'tombstone-of-other-container'
         return actor or 'other'
+
+    @staticmethod
+    def _uid_key(ent):
+        """What gen_uniqueid keeps of (ctime, inode): 77 bits = 13 bits of
+        the ctime in microseconds on top of the 64-bit inode/instance word."""
+        if ent is None:
+            return None
+        # exactly as gen_uniqueid derives it from the float st_ctime
+        event_time = int((ent['ctime_us'] / 1000000.0) * 10**6)
+        return (event_time & 0x1fff, ent['ino'])
 
     def _link_kind(self, path):
         parent = os.path.dirname(path)
@@ -912,8 +929,14 @@ class World:
                                                           inst))
         self.cache[inst]['uname'] = uname
         rec = self.containers.get(uname)
+        self.cache[inst]['clash'] = None
         if rec is not None and rec['gen'] != gen:
             self.unique_name_collisions += 1
+            self.cache[inst]['clash'] = (
+                'via-unique-id-truncation'
+                if rec['inst'] == inst and
+                rec['key'] == self._uid_key(self.cache[inst])
+                else 'via-unique-name-collision-other')
         self.log.ev('cache-put', inst, gen, ino, bad, uname)
 
     def op_del(self, op):
